@@ -29,8 +29,12 @@ CLAIMED = {
          "fields) and EVERY payload, the translated decode function computes exactly spec_decode (metadata from the record; "
          "value from (p / 2^BitOffset) mod 2^BitLength under signedness, not-available rule, resolution, range, lookup table). "
          "All 417 definitions (incl. variable-layout ones) are compared statement by statement with the template by kernel "
-         "computation; lookup dictionaries are proved equal to the database tables. Totality on in-range payloads and the "
-         "Offset attribute are decided by the witness search (database semantics evaluated exactly in Python), not by a theorem: partial.",
+         "computation; lookup dictionaries are proved equal to the database tables. C01_in_range_total / C01_within_tolerance_total "
+         "(RangeProofs.v, Flocq): an available raw value whose exact product raw x resolution lies inside [RangeMin, RangeMax] (also: "
+         "within the decoder's 1e-12 tolerance) is never rejected and decodes to the correctly rounded double of raw x resolution "
+         "(relative error <= 2^-53), for |raw| < 2^53 and ordinary resolutions; boolean, kernel-computable forms of the hypotheses are "
+         "provided. PARTIAL: the database attribute Offset (23 fields) is ignored by the code (known finding) and is decided by the "
+         "witness search; the 75 variable-layout definitions are covered by the table obligation and the correspondence only.",
          "Trusted: Coq kernel + vm_compute + native float/int63 primitives; translators tr_pgns.py/tr_db.py (cross-examined by "
          "running the real generated decoders against run_ddef on the translated tables); hand models Fields.v/PyNum.v of "
          "utils.py and CPython int/float arithmetic, tied by ~12k kernel-decided cases per run. Known finding: database "
@@ -67,8 +71,10 @@ CLAIMED = {
          "C09_range (an accepted number's rounded quotient lies in the representable interval with the top code reserved; "
          "two's complement, never wrapped or clipped), C09_missing (a message lacking a listed field is never encoded), "
          "C09_local (changing a field changes only its bits), C09_reads_back, C09_absent; C02_bits for the tables of this run. "
-         "PARTIAL: 'decodes back to within half a resolution step' involves IEEE rounding of value/resolution and raw*resolution "
-         "and is decided by the encode->decode oracle on the real code, not by a theorem.",
+         "C09_half_step (RangeProofs.v, Flocq): every accepted value v is encoded to a raw n with |n*resolution - v| <= |resolution|/2 + "
+         "2^-53*|v| (all four int/float typings; C09_half_step_int: 2|n*k - v| <= k for |v| < 2^52, k+1 up to 2^53 - the double "
+         "quotient can round a near-tie - with a kernel-evaluated example that agrees with CPython); C09_decodes_back_close: decoding "
+         "that raw value again gives v back to within half a step plus two relative roundings.",
          "Trusted: as C02. Known findings: RESERVED values and LOOKUP raw values are masked without a range check.",
          "DESIGN.md §5 C09"),
  "C03": ("Coq proof (structural induction on 6/7-byte chunking; refinement of the reassembly step to a set-based reference) of a hand model + kernel-evaluated correspondence incl. a complete sweep of 224 lengths x 8 counters",
